@@ -43,6 +43,18 @@ theorem set_table_exact (p : URow → Bool) (rows : List URow) (h : WF rows) :
     induction rows using WF.induct <;> simp_all [WF, GenSetAux.WFc]
   exact GenSetAux.set_table_exact p rows h'
 
+/-- well-formed property-file lines (Scripts.txt, DerivedJoiningType.txt, PropList.txt, DerivedCoreProperties.txt,
+HangulSyllableType.txt): each line a non-empty range, no code point listed twice — in ANY order of lines -/
+def WFLines (rows : List URow) : Prop :=
+  rows.Pairwise (fun r r' => r.cps.hi < r'.cps.lo ∨ r'.cps.hi < r.cps.lo) ∧ ∀ r ∈ rows, r.cps.lo ≤ r.cps.hi
+
+/-- script / joining-type / property / Hangul-syllable-type set tables: the same `UcdTableGen` fed from a property
+file whose lines need not be ascending (UAX #44 gives line order no meaning): exactly the code points of the
+selected lines; searchable -/
+theorem property_table_exact (p : URow → Bool) (rows : List URow) (h : WFLines rows) :
+    ∃ t, setTable p rows = some t ∧ sortedTable t = true ∧ ∀ cp, memL cp t = assigned p rows cp :=
+  GenSetAux.set_table_exact_unordered p rows h.1 h.2
+
 /-- the unassigned-gap table: exactly the code points of Unicode that no row contains; searchable
 (it may contain empty entries `start = end + 1` after a range, which never match: C18) -/
 theorem unassigned_exact (rows : List URow) (h : WF rows) :
@@ -70,6 +82,11 @@ ranges, and a trailing run -/
 example : bidiTable [⟨.range 0x10 0x20, "Lo", 0, "L", none⟩, ⟨.range 0x30 0x40, "Lo", 0, "L", none⟩,
     ⟨.single 0x41, "Lu", 0, "R", none⟩, ⟨.single 0x42, "Lu", 0, "R", none⟩]
     = some [(.range 0x10 0x20, "L"), (.range 0x30 0x40, "L"), (.range 0x41 0x42, "R")] := by decide
+
+/-- non-vacuity: blocks of one script listed out of order, adjacent pieces on non-adjacent lines, are well-formed lines -/
+example : WFLines [⟨.range 0x1F00 0x1F15, "Greek", 0, "", none⟩, ⟨.range 0x372 0x373, "Greek", 0, "", none⟩,
+    ⟨.single 0x41, "Latin", 0, "", none⟩, ⟨.range 0x370 0x371, "Greek", 0, "", none⟩] := by
+  simp [WFLines, Cps.lo, Cps.hi]
 
 example : unassignedTable [⟨.single 0, "Cc", 0, "BN", none⟩, ⟨.range 2 4, "Lo", 0, "L", none⟩]
     = some [.single 1, .range 5 0x10FFFF] := by decide
